@@ -833,6 +833,11 @@ func (r *efRun) instr(p *PState, ins ssa.Instruction) bool {
 		if _, ok := x.Addr.(*ssa.Alloc); ok {
 			return true
 		}
+		if r.strictRead && formatsWithoutWrapping(x) {
+			// fmt.Errorf("...%v", err) / Sprintf: the text of the error is used, the error itself is
+			// not passed on (errors.Is/As cannot find it): not a way of reporting a source error
+			return true
+		}
 		s.consumed[val] = true
 		if fa, ok := x.Addr.(*ssa.FieldAddr); ok && isErrType(x.Val.Type()) {
 			fv := fieldOfAddr(fa)
@@ -1295,4 +1300,46 @@ func (e *EF) isSentinel(g *ssa.Global) bool {
 		}
 	}
 	return e.sentinels[g]
+}
+
+// formatsWithoutWrapping: the store puts a value into the argument array of a fmt formatting call
+// whose constant format has no %w (fmt.Errorf without %w, Sprintf, Sprint, ...).
+func formatsWithoutWrapping(st *ssa.Store) bool {
+	ia, ok := st.Addr.(*ssa.IndexAddr)
+	if !ok {
+		return false
+	}
+	al, ok := ia.X.(*ssa.Alloc)
+	if !ok || al.Referrers() == nil {
+		return false
+	}
+	for _, ref := range *al.Referrers() {
+		sl, isSl := ref.(*ssa.Slice)
+		if !isSl || sl.Referrers() == nil {
+			continue
+		}
+		for _, r2 := range *sl.Referrers() {
+			call, isC := r2.(*ssa.Call)
+			if !isC {
+				continue
+			}
+			cal := call.Call.StaticCallee()
+			if cal == nil || cal.Pkg == nil || cal.Pkg.Pkg.Path() != "fmt" {
+				return false
+			}
+			switch cal.Name() {
+			case "Errorf":
+				if len(call.Call.Args) >= 1 {
+					if k, isK := call.Call.Args[0].(*ssa.Const); isK && k.Value != nil && !strings.Contains(k.Value.ExactString(), "%w") {
+						return true
+					}
+				}
+				return false
+			case "Sprintf", "Sprint", "Sprintln":
+				return true
+			}
+			return false
+		}
+	}
+	return false
 }
